@@ -14,6 +14,7 @@ ADDON_GAIN = {'Construction Years': '1', 'Do AddOn Calculations': 'True', 'AddOn
               'AddOn Nickname 2': 'b', 'AddOn CAPEX 2': '4', 'AddOn OPEX 2': '0.3', 'AddOn Electricity Gained 2': '-100000',
               'AddOn Heat Gained 2': '0', 'AddOn Profit Gained 2': '1.5'}
 STRUCT = [ADDON_ZERO, ADDON_GAIN, {'Maximum Drawdown': '0.05'},
+          {**ADDON_GAIN, 'Do S-DAC-GT Calculations': 'True', 'S-DAC-GT CAPEX': '1400', 'S-DAC-GT OPEX': '130'},     # both extensions in one run
           {'Power Plant Type': None},      # left to its default: the end-use option then decides the plant (industrial heat for direct use)
           {'Total Capital Cost': '50', 'Total O&M Cost': '3'},
           {'Do Carbon Price Calculations': 'True', 'Starting Carbon Credit Value': '0.01', 'Ending Carbon Credit Value': '0.05',
@@ -94,7 +95,7 @@ def plan(tier, seed):
                             inter = {k: al[k][:2] for k in INTERACTION if k in al}
                             for ch in e1.deviations(inter, 2):
                                 P.append({'fam': fam, 'changes': ch})
-                            for st in STRUCT[:4]:
+                            for st in STRUCT[:5]:
                                 for ch in e1.deviations(inter, 1):
                                     c = dict(st)
                                     c.update(ch)
